@@ -19,7 +19,9 @@ Step == /\ l <= Len(Tr.events) /\ verdict = "ok"
                v == IF e.exc # "none" THEN "raises-" \o e.exc
                     ELSE IF o.line # <<>> THEN "output-without-newline"
                     ELSE IF Len(o.lines) < Len(exp) THEN "line-lost"
-                    ELSE IF Len(o.lines) > Len(exp) THEN "line-duplicated-or-early"
+                    ELSE IF Len(o.lines) > Len(exp) /\ ~Tr.narrow THEN "line-duplicated-or-early"
+                    ELSE IF Tr.narrow THEN          \* lines longer than the console are wrapped: blanks aside, still everything, in order, styled
+                         (IF Chars(Ink(o.lines)) # Chars(Ink(exp)) THEN "characters-differ" ELSE IF Ink(o.lines) # Ink(exp) THEN "styling-differs" ELSE "ok")
                     ELSE IF ~SameChars(o.lines, exp) THEN "characters-differ"
                     ELSE IF ~SameLines(o.lines, exp) THEN "styling-differs"
                     ELSE "ok"
